@@ -29,8 +29,48 @@ CONTENTS = [
     ">HiC_scaffold\u00a01\nACGTACGTAC\nGTNNAC\n>HiC_scaffold\u00a02 d\nTTGACCA\n",
     ">a\x1f7 x\nAC\n>b\nACGTNNNN\n",
     ">s1\u20035\nACGT\n",
+    # a fully masked record (all N: an assembly object made of one gap) between two ordinary ones
+    ">s1\nACGTACGTAC\nGT\n>masked\nNNNNNNNNNN\nNNNNN\n>s3\nTTGACCA\n",
 ]
 N_MODEL_CONTENTS = 6
+ALL_N = len(CONTENTS) - 1
+
+
+def naive_snapshot(text):
+    """what the index and the derived assembly of a plain FASTA text are, worked out line by line
+    (LF line ends, names without unusual white space; None when the text is not that plain)"""
+    import re as _re
+
+    if not text.isascii() or "\r" in text or _re.search(r"[\x00-\x09\x0b-\x1f]", text):
+        return None
+    idx, asm = {}, []
+    pos = 0
+    cur = None
+    for line in text.split("\n")[:-1] if text.endswith("\n") else text.split("\n"):
+        raw = len(line) + 1
+        if line.startswith(">"):
+            name = line[1:].split()[0] if line[1:].split() else None
+            if name is None:
+                return None
+            cur = {"name": name, "seq": "", "off": pos + raw, "w": None}
+            asm.append(cur)
+        elif cur is not None:
+            if cur["w"] is None:
+                cur["w"] = len(line)
+            cur["seq"] += line
+        pos += raw
+    out_idx, out_asm = {}, []
+    for c in asm:
+        w = c["w"] or 0
+        out_idx[c["name"]] = (len(c["seq"]), c["off"], w, w + 1)
+        rows, p = [], 0
+        for m in _re.finditer(r"[ACGTacgt]+|[^ACGTacgt]+", c["seq"]):
+            if m.group(0)[0] in "ACGTacgt":
+                rows.append(("Fragment", c["name"], m.start() + 1, m.end(), m.end() - m.start()))
+            else:
+                rows.append(("Gap", None, None, None, m.end() - m.start()))
+        out_asm.append((c["name"], rows))
+    return out_idx, out_asm
 
 
 def snapshot(fi):
@@ -110,6 +150,8 @@ class C15(Prop):
         for tick in (True, False):
             yield {"gen": "history/masked-in-place", "steps": [["rewrite", 0, True], ["tick"], ["load", None], ["rewrite", 5, tick],
                                                                ["tick"], ["load", None], ["load", None]]}
+            yield {"gen": "history/all-N-record", "steps": [["rewrite", 0, True], ["tick"], ["load", None], ["rewrite", ALL_N, tick],
+                                                             ["tick"], ["load", None], ["load", None]]}
             yield {"gen": "history/trailing-gap", "steps": [["rewrite", 4, True], ["tick"], ["load", None], ["load", None],
                                                             ["rewrite", 0, tick], ["load", None]]}
         for second in (1, 2):
@@ -225,7 +267,15 @@ class C15(Prop):
         pid_save = getattr(sim.tls, "pid", None)
         sim.tls.pid = None
         try:
-            return "good" if r[1] == self.fresh(sim) else "bad"
+            ref = self.fresh(sim)
+            # the reference itself is checked against a line-by-line reading of the current content
+            try:
+                naive = naive_snapshot(sim.fasta.read_bytes().decode("utf-8"))
+            except Exception:
+                naive = None
+            if naive is not None and (ref[0], [(n, [tuple(x) for x in rows]) for n, rows in (ref[1] or [])]) != naive:
+                return "bad"
+            return "good" if r[1] == ref else "bad"
         finally:
             sim.tls.pid = pid_save
 
